@@ -35,7 +35,7 @@ const c10RoomId = "424242"
 
 type c10Step struct {
 	St    int    `json:"st"`
-	K     string `json:"k"` // doc, bad, bin, over, opaque
+	K     string `json:"k"` // doc, bad, bin, over, opaque; resume: no frame of the sender - the session without connection resumes (St 7)
 	Doc   *vj    `json:"doc,omitempty"`
 	Raw   string `json:"raw,omitempty"` // base64 of the frame (bad, bin, over, opaque); placeholders are substituted after decoding
 	Class string `json:"class,omitempty"`
@@ -223,7 +223,7 @@ func (s *c10Step) coqInput() string {
 }
 
 func (s *c10Step) coq() string {
-	if s.K == "opaque" {
+	if s.K == "opaque" || s.K == "resume" {
 		return fmt.Sprintf("mkopaque %d (mkobs %s %s %s %s %s %s %s %s)", s.St, coqBool(s.Alive), coqList(s.Replies),
 			coqBool(s.Closed), coqList(s.By), coqBool(s.ByOk), coqBool(s.DSame), coqZ(int64(s.Api)), coqZ(int64(s.Off)))
 	}
@@ -743,6 +743,35 @@ func c10Witnesses() []c10Case {
 		{Ops: []c10Step{{St: 0, K: "doc", Doc: jo(kv("type", js(c10Bytes([]byte("by\xe2\x82e"))))), Class: "witness/type-not-utf8-before-hello"}}},
 		{Ops: []c10Step{{St: 2, K: "doc", Doc: jo(kv("id", js("w")), kv("type", js(c10Bytes([]byte("\xff"))))), Class: "witness/type-not-utf8-in-room"}}},
 	}
+}
+
+// What was stored for the session without connection is sent when it resumes: a few
+// payloads of each kind to it (by session id, room, call, user), then the resume.  The
+// queue holds everything the earlier steps of the same child left there as well.
+func c10ResumeCases() []c10Case {
+	msg := func(kind string, rc *vj, data *vj) *vj {
+		return c10Msg("q1", kind, kv(kind, jo(kv("recipient", rc), kv("data", data))))
+	}
+	off := c10Recipient("session", kv("sessionid", js(c10Oid)))
+	chat := func(members ...vjm) *vj { return jo(append([]vjm{kv("type", js("chat"))}, members...)...) }
+	groups := [][]*vj{
+		{msg("message", off, chat()), msg("message", c10Recipient("room"), chat(kv("chat", jz()))), msg("message", off, chat(kv("chat", jo(kv("refresh", jb(true))))))},
+		{msg("message", c10Recipient("call"), chat(kv("chat", jo()))), msg("control", off, chat()), msg("message", c10Recipient("user", kv("userid", js(c10OffUser))), chat(kv("chat", ji(5))))},
+		{msg("message", off, js("chat")), msg("message", off, jnestv(300, ji(1))), msg("control", c10Recipient("room"), jz())},
+		{msg("message", c10Recipient("room"), jo(kv("type", js("offer")), kv("payload", jo(kv("sdp", js("not an sdp")))))), msg("message", off, jo(kv("type", js("unshareScreen")), kv("roomType", js("screen"))))},
+		{c10Msg("t1", "transient", kv("transient", jo(kv("type", js("set")), kv("key", js("k9")), kv("value", jo(kv("v", ji(1))))))), msg("message", off, jo())},
+		{msg("message", off, chat(kv("chat", jo(kv("refresh", jb(true)))))), msg("message", off, chat(kv("chat", jo(kv("refresh", jb(true)))))), msg("message", c10Recipient("room"), chat(kv("chat", jo(kv("refresh", jb(false))))))},
+	}
+	var out []c10Case
+	for gi, g := range groups {
+		c := c10Case{}
+		for di, d := range g {
+			c.Ops = append(c.Ops, c10Step{St: 2, K: "doc", Doc: d, Class: fmt.Sprintf("resume/%d/store-%d", gi, di)})
+		}
+		c.Ops = append(c.Ops, c10Step{St: 7, K: "resume", Class: fmt.Sprintf("resume/%d/resume", gi)})
+		out = append(out, c)
+	}
+	return out
 }
 
 // ---- raw frames -------------------------------------------------------------------------------------------------
